@@ -140,16 +140,17 @@ class Speller:
             out.append(p)
         return '=' + ''.join(out)
 
-    def spellings(self, vec):
+    def spellings(self, vec, lean=False):
         toks = vec['toks']
         rnd = self.rnd
         has_call = any(t in ('SUM(', 'IF(') for t in toks)
         span = rnd.choice(vec['sp'])
-        out = [('plain', self.render(toks)),
-               ('spaces', self.render(toks, spaces=True)),
-               ('parens', self.render(toks, wrap=span))]
-        if has_call:
-            out.append(('case', self.render(toks, fcase=rnd.randint(1, 3))))
+        out = [('plain', self.render(toks))]
+        if not lean:
+            out += [('spaces', self.render(toks, spaces=True)),
+                    ('parens', self.render(toks, wrap=span))]
+            if has_call:
+                out.append(('case', self.render(toks, fcase=rnd.randint(1, 3))))
         out.append(('all', self.render(toks, spaces=True, fcase=rnd.randint(0, 3),
                                        wrap=rnd.choice(vec['sp']))))
         seen, uniq = set(), []
@@ -238,15 +239,16 @@ class Binder:
     def uses_refs(vec):
         return any(t in ('A1', 'B1') for t in vec['toks'])
 
-    def bind(self, vectors, wb_share=1.0):
-        """evaluate every vector in every spelling through both routes"""
+    def bind(self, vectors, wb_share=1.0, lean_from=99):
+        """evaluate every vector in every spelling through both routes
+        (formulas of lean_from tokens or more: plain + everything-at-once)"""
         v = self.v
         plan = {}      # env index -> list of (kind, vec, formula)
         for vec in vectors:
             v.sample(dict(formula=self.sp.render(vec['toks']),
                           values=[show(x) for x in vec['vals']]))
             envs = range(len(self.envs)) if self.uses_refs(vec) else (0,)
-            spellings = self.sp.spellings(vec)
+            spellings = self.sp.spellings(vec, lean=len(vec['toks']) >= lean_from)
             for e in envs:
                 if vec['vals'][e][0] == 'U':
                     self.skipped += 1
@@ -304,6 +306,7 @@ def run_exhaustive(v, name, maxlen, invariants, workers=8, timeout=1500):
             + res.stdout[-2500:])
     tables = [x['tables'] for x in res.json if 'tables' in x]
     vectors = [x for x in res.json if 'toks' in x]
+    res.stdout, res.json = '', []
     states, complete = count_formulas(maxlen=maxlen, **CFG[name]['counts'])
     if res.distinct != states:
         raise tlc.MachineryFailure(
@@ -348,21 +351,22 @@ _JOB = {}
 
 
 def _bind_chunk(args):
-    idx, lo, hi, wb_share = args
+    idx, lo, hi, wb_share, lean_from = args
     col = Collector()
     b = Binder(col, _JOB['tables'], random.Random(_JOB['seed'] * 1000003 + idx))
-    b.bind(_JOB['vectors'][lo:hi], wb_share)
+    b.bind(_JOB['vectors'][lo:hi], wb_share, lean_from)
     return dict(violations=col.violations[:40], nviol=len(col.violations),
                 evaluations=col.evaluations, samples=col.samples, skipped=b.skipped,
                 by_route=b.by_route, by_spelling=b.by_spelling)
 
 
-def bind_parallel(v, totals, tables, vectors, seed, wb_share, procs, chunk=1500):
+def bind_parallel(v, totals, tables, vectors, seed, wb_share, procs, chunk=1500,
+                  lean_from=99):
     """split the vectors over worker processes (fork: the vectors are
     inherited, only the reports travel back)"""
     import multiprocessing as mp
     _JOB.update(tables=tables, vectors=vectors, seed=seed)
-    jobs = [(i, lo, min(lo + chunk, len(vectors)), wb_share)
+    jobs = [(i, lo, min(lo + chunk, len(vectors)), wb_share, lean_from)
             for i, lo in enumerate(range(0, len(vectors), chunk))]
     if procs <= 1 or len(jobs) <= 1:
         reports = [_bind_chunk(j) for j in jobs]
@@ -463,7 +467,8 @@ def run(tier, seed):
         if not taken[act]:
             raise tlc.MachineryFailure(f'vacuous: action {act} never taken (prec run)')
     vec_p = fresh(vec_p)
-    bind_parallel(v, totals, tables, vec_p, seed + 1, 0.5 if quick else 0.2, procs)
+    bind_parallel(v, totals, tables, vec_p, seed + 1, 0.5 if quick else 0.2, procs,
+                  chunk=1500 if quick else 4000, lean_from=99 if quick else 7)
 
     res_s, vec_s = wait('sim')
     v.add_tlc(res_s, f'Formula simulate <= {sim_len} tokens')
@@ -489,7 +494,8 @@ def run(tier, seed):
         rule='one case = (route, formula text, environment); every exhaustive run is '
              'cross-checked against an independent count of the grammar; the workbook '
              'route is taken for every formula of the lit and sampled sets and for a '
-             'random share of the prec set',
+             'random share of the prec set; thorough: 7-token formulas of the prec set '
+             'in two spellings (plain, all variations at once) instead of five',
         not_judged=['values the reference marks U: 32-bit guard (e.g. 2^1E2), fractional '
                     'powers of positive numbers, 0^0, comparisons/concatenations/zero '
                     'tests that depend on a non-dyadic intermediate (binary floating '
